@@ -60,6 +60,32 @@ class ScriptedStream:
             raise ValueError("Sample larger than population or is negative")
         return pop[len(pop) - k:] if self._hi() else pop[:k]
 
+    # the other drawing functions of the random module, scripted the same way (a change may well draw through them)
+    def choice(self, seq):
+        seq = list(seq)
+        if not seq:
+            raise IndexError("Cannot choose from an empty sequence")
+        return seq[-1] if self._hi() else seq[0]
+
+    def choices(self, population, weights=None, *, cum_weights=None, k=1):
+        return [self.choice(population) for _ in range(k)]
+
+    def randrange(self, start, stop=None, step=1):
+        r = range(start) if stop is None else range(start, stop, step)
+        if not r:
+            raise ValueError("empty range for randrange()")
+        return r[-1] if self._hi() else r[0]
+
+    def shuffle(self, x):
+        if self._hi():
+            x.reverse()
+
+    def random(self):
+        return 1.0 - 2.0 ** -53 if self._hi() else 0.0
+
+    def uniform(self, a, b):
+        return b if self._hi() else a
+
 
 class SpikeRandom(random.Random):
     """
@@ -220,14 +246,17 @@ def run_seeded_in_worker_thread(ctx, count, cname, conn, ensure, seed):
 
 def run_hostile(ctx, count, cname, conn, ensure, mode):
     sr = ScriptedStream(mode)
-    saved = (random.randint, random.sample)
-    random.randint, random.sample = sr.randint, sr.sample
+    names = ("randint", "sample", "choice", "choices", "randrange", "shuffle", "random", "uniform")
+    saved = tuple(getattr(random, n) for n in names)
+    for n in names:
+        setattr(random, n, getattr(sr, n))
     try:
         case = {"count": count, "cls": cname, "conn": conn, "ensure": ensure, "seed": None, "stream": mode}
         judge(ctx, count, cname, conn, ensure, f"scripted RNG stream '{mode}'", case)
         ctx.count("hostile_stream_runs")
     finally:
-        random.randint, random.sample = saved
+        for n, f in zip(names, saved):
+            setattr(random, n, f)
 
 
 FRESH = r"""
@@ -301,6 +330,15 @@ def run(ctx):
                     if k in (7, 300) and ctx.shard == 0:
                         ctx.sample({"count": count, "edge": cname, "connectivity": conn, "ensurelink": ensure,
                                     "seeds": [base, base + nseeds - 1], "hostile_streams": ["min", "max", "alt"]})
+    # scripted streams on mid-size graphs too: always-the-first / always-the-last picks pile every link onto a few
+    # vertices (degree saturation, hubs)
+    if ctx.shard == 0:
+        for count in (13, 17, 20, 24, 30, 45):
+            for cname in CLASSES[:2]:
+                for conn in (None, 1.0, 0.5):
+                    for ensure in (True, False):
+                        for mode in ("min", "max", "alt"):
+                            run_hostile(ctx, count, cname, conn, ensure, mode)
     # dense graphs of a few dozen vertices: the per-vertex draw ranges over dozens of values there, so the tails of
     # whatever distribution the neighbour count is drawn from get sampled
     for count in ((40, 80) if quick else (20, 40, 80, 120)):
